@@ -16,6 +16,7 @@ Arguments write_var : simpl never.
 Arguments scope : simpl never.
 Arguments mem : simpl never.
 Arguments subset : simpl never.
+Arguments union : simpl never.
 Arguments firstn : simpl never.
 
 (* inversion of a successful checker equation: case-split every scrutinee *)
@@ -127,7 +128,7 @@ Lemma check_stmt_SIf C G inv il c b1 b2 :
     | Some (b1', i1, r1) =>
       match check_block C G i0 il b2 with
       | Some (b2', i2, r2) =>
-        Some (SIf c' b1' b2', G, scope (length G) i1 ++ scope (length G) i2, r1 && r2)
+        Some (SIf c' b1' b2', G, union (scope (length G) i1) (scope (length G) i2), r1 && r2)
       | None => None
       end
     | None => None
@@ -144,7 +145,7 @@ Lemma check_stmt_SIfLet C G inv il e tv b1 b2 :
     | Some (b1', i1, r1) =>
       match check_block C G i0 il b2 with
       | Some (b2', i2, r2) =>
-        Some (SIfLet e' (TOpt t) b1' b2', G, scope (length G) i1 ++ scope (length G) i2, r1 && r2)
+        Some (SIfLet e' (TOpt t) b1' b2', G, union (scope (length G) i1) (scope (length G) i2), r1 && r2)
       | None => None
       end
     | None => None
@@ -160,7 +161,7 @@ Lemma check_stmt_SWhile C G inv il c b :
     match check_block C G i0 true b with
     | Some (b', i1, _) =>
       if subset (scope (length G) i1) inv
-      then Some (SWhile c' b', G, inv ++ i0, false) else None
+      then Some (SWhile c' b', G, union inv i0, false) else None
     | None => None
     end
   | _ => None
@@ -191,7 +192,7 @@ Lemma check_block_eq C G inv il b :
     match check_stmt C G inv il s with
     | Some (s', G1, i1, r1) =>
       match check_block C G1 i1 il r with
-      | Some (r', i2, r2) => Some (BCons s' r', i1 ++ i2, r1 || r2)
+      | Some (r', i2, r2) => Some (BCons s' r', union i1 i2, r1 || r2)
       | None => None
       end
     | None => None
@@ -967,15 +968,15 @@ Section sound.
     eexists; reflexivity.
   Qed.
 
-  Lemma env_ok_scope_app_l G n a b r : env_ok D G (scope n a) r -> env_ok D G (scope n (a ++ b)) r.
+  Lemma env_ok_scope_app_l G n a b r : env_ok D G (scope n a) r -> env_ok D G (scope n (union a b)) r.
   Proof.
-    intro H. eapply env_ok_weaken; eauto. intros i Hi. rewrite mem_scope in *. rewrite mem_app.
+    intro H. eapply env_ok_weaken; eauto. intros i Hi. rewrite mem_scope in *. rewrite mem_union.
     apply andb_true_iff in Hi as [H1 H2]. rewrite H1, H2. reflexivity.
   Qed.
 
-  Lemma env_ok_scope_app_r G n a b r : env_ok D G (scope n b) r -> env_ok D G (scope n (a ++ b)) r.
+  Lemma env_ok_scope_app_r G n a b r : env_ok D G (scope n b) r -> env_ok D G (scope n (union a b)) r.
   Proof.
-    intro H. eapply env_ok_weaken; eauto. intros i Hi. rewrite mem_scope in *. rewrite mem_app.
+    intro H. eapply env_ok_weaken; eauto. intros i Hi. rewrite mem_scope in *. rewrite mem_union.
     apply andb_true_iff in Hi as [H1 H2]. rewrite H1, H2. rewrite orb_true_r. reflexivity.
   Qed.
 
